@@ -7,8 +7,13 @@ spec -> code : every operation sequence TLC generates from Observe.tla (-dump: a
                external; passing and failing inputs) obtained in every way TLC enumerates (`origin`: returned by
                evaluate(), constructed directly from the recorded statistics with the optional arguments of the
                result class left to their documented defaults, loaded back from a pickle); after every operation
-               a deep snapshot (verdict, every recorded attribute, the pickle, test parameters, dataset bytes) is
-               compared with the abstract state of the TLC state, which never changes.
+               a deep snapshot (verdict, every recorded attribute, the pickle, test parameters, dataset bytes, and
+               every object the test was constructed from: datasets, dictionaries / environment sections with their
+               key sets, lists, templates) is compared with the abstract state of the TLC state, which never changes.
+               The baseline of the inputs is taken BEFORE the test is constructed and evaluated, so that the
+               evaluation itself is one of the operations that must leave them alone.  The operation `sibling`
+               evaluates OTHER tests constructed over the very same input objects (rotating order) and reads their
+               results: the result under observation, its inputs and a later `reeval` must not notice.
                Every operation NAME of the model stands for the whole family of public read-only calls of that
                sort: explicit lists for the accessors the classes document, introspection (public properties and
                methods without required argument, explicit deny list / argument table) for the rest, every
@@ -45,7 +50,7 @@ KINDS = ['equal', 'approx', 'student', 'bonferroni', 'holm', 'chi2', 'metadata',
 ALWAYS_BAD = ['failed']
 CLASSIFIED = ['stats-tasks', 'stats-tests']
 ORIGINS = ['evaluate', 'direct', 'unpickled']      # how the result object is obtained, see obtain()
-PLAIN_OPS = ['bool', 'oracles', 'counts', 'data', 'fingerprint', 'copy', 'pickle', 'reeval']
+PLAIN_OPS = ['bool', 'oracles', 'counts', 'data', 'fingerprint', 'copy', 'pickle', 'reeval', 'sibling']
 VERB_OPS = ['table', 'plot', 'full', 'rst']
 DRAW_OPS = ['draw']      # representation drawn by matplotlib: expensive, kept out of the exhaustive alphabets
 NOVERB = 9
@@ -81,8 +86,34 @@ def _datasets(good):
     return ref, _ds([5.0, 1.0, 9.0, 0.5], [0.1, 0.1, 0.1, 0.1], 'far')
 
 
-def build(kind, good):
-    """A freshly evaluated result of the given kind on inputs that pass (good) or fail."""
+class Built:
+    """A test ready to be evaluated, with everything it was constructed from.
+
+    inputs    every object handed to the constructor(s): datasets, dictionaries, lists of (task name, environment
+              section) pairs, result lists, templates, the inner test of a correction
+    pre       digest of the inputs taken BEFORE the constructor saw them, fingerprint and digest of the test taken
+              before it was evaluated: the baseline of the `data` component of the abstract state (see Tracker)
+    finish    test -> result (evaluate(), or the wrapping of a failed evaluation)
+    siblings  () -> other tests constructed over the very same input objects (other classes of the same family,
+              other options, the same class a second time), see apply_op('sibling')"""
+
+    def __init__(self, make, inputs, siblings, finish=None):
+        from valjean.fingerprint import fingerprint
+        self.inputs = inputs
+        with _OneSnapshot():
+            before = _dig(inputs)
+        self.test = make()
+        with _OneSnapshot():
+            self.pre = (fingerprint(self.test), _dig(self.test), before)
+        self.siblings = siblings
+        self.finish = finish or (lambda test: test.evaluate())
+
+    def result(self):
+        return self.finish(self.test)
+
+
+def build_test(kind, good):
+    """A freshly constructed test of the given kind on inputs that pass (good) or fail, not evaluated yet."""
     from valjean.gavroche.test import TestEqual, TestApproxEqual, TestResultFailed
     from valjean.gavroche.stat_tests.student import TestStudent
     from valjean.gavroche.stat_tests.bonferroni import TestBonferroni, TestHolmBonferroni
@@ -91,41 +122,64 @@ def build(kind, good):
     from valjean.gavroche.diagnostics.stats import TestStatsTasks, TestStatsTests, TestStatsTestsByLabels
     from valjean.cosette.task import TaskStatus
     ref, other = _datasets(good)
+
+    def on_datasets(dsa, dsb):
+        return lambda: [TestEqual(dsa, dsb, name='sib-equal'), TestApproxEqual(dsa, dsb, name='sib-approx', rtol=0.01),
+                        TestStudent(dsa, dsb, name='sib-student', ndf=20, alpha=0.05), TestChi2(dsa, dsb, name='sib-chi2', alpha=0.05),
+                        TestBonferroni(name='sib-bonferroni', alpha=0.05, test=TestStudent(dsa, dsb, name='sib-inner', ndf=20, alpha=0.05))]
+
     if kind == 'equal':
         same = (_ds if FLAVOUR[0] == '1d' else _ds2)([1.0, 2.0, 3.0, 4.0], [0.2, 0.2, 0.2, 0.2], 'same')
-        return TestEqual(ref, same if good else other, name='equal', description='equality').evaluate()
+        second = same if good else other
+        return Built(lambda: TestEqual(ref, second, name='equal', description='equality'), [ref, second], on_datasets(ref, second))
     if kind == 'approx':
-        return TestApproxEqual(ref, other, name='approx', description='approx', rtol=0.05).evaluate()
+        return Built(lambda: TestApproxEqual(ref, other, name='approx', description='approx', rtol=0.05), [ref, other], on_datasets(ref, other))
     if kind == 'student':
-        return TestStudent(ref, other, name='student', description='t-test', ndf=20, alpha=0.05).evaluate()
-    if kind == 'bonferroni':
-        return TestBonferroni(name='bonferroni', description='bonf', alpha=0.05,
-                              test=TestStudent(ref, other, name='student', ndf=20, alpha=0.05)).evaluate()
-    if kind == 'holm':
-        return TestHolmBonferroni(name='holm', description='holm', alpha=0.05,
-                                  test=TestStudent(ref, other, name='student', ndf=20, alpha=0.05)).evaluate()
+        return Built(lambda: TestStudent(ref, other, name='student', description='t-test', ndf=20, alpha=0.05), [ref, other], on_datasets(ref, other))
+    if kind in ('bonferroni', 'holm'):
+        inner = TestStudent(ref, other, name='student', ndf=20, alpha=0.05)
+        cls = TestBonferroni if kind == 'bonferroni' else TestHolmBonferroni
+        sibs = on_datasets(ref, other)
+        return Built(lambda: cls(name=kind, description=kind[:4], alpha=0.05, test=inner), [ref, other, inner],
+                     lambda: [inner, TestBonferroni(name='sib-bonferroni', alpha=0.01, test=inner),
+                              TestHolmBonferroni(name='sib-holm', alpha=0.01, test=inner)] + sibs())
     if kind == 'chi2':
-        return TestChi2(ref, other, name='chi2', description='chi2', alpha=0.05).evaluate()
+        return Built(lambda: TestChi2(ref, other, name='chi2', description='chi2', alpha=0.05), [ref, other], on_datasets(ref, other))
     if kind == 'metadata':
         md1 = {'code': 'T4', 'version': 11, 'results': 'ignored'}
         md2 = dict(md1) if good else {'code': 'T4', 'version': 12, 'extra': 'x'}
-        return TestMetadata({'first': md1, 'second': md2}, name='metadata', description='md').evaluate()
+        dmd = {'first': md1, 'second': md2}
+        return Built(lambda: TestMetadata(dmd, name='metadata', description='md'), [dmd, md1, md2],
+                     lambda: [TestMetadata(dmd, name='sib-metadata'), TestMetadata(dmd, name='sib-all', exclude=()),
+                              TestMetadata({'b': md2, 'a': md1}, name='sib-swapped')])
+
+    def on_sections(trs):
+        return lambda: [TestStatsTasks(name='sib-tasks', task_results=trs), TestStatsTests(name='sib-tests', task_results=trs),
+                        TestStatsTestsByLabels(name='sib-bylabels', task_results=trs, by_labels=('day',)),
+                        TestStatsTestsByLabels(name='sib-bylabels2', task_results=trs, by_labels=('meal', 'day'))]
+
     if kind == 'stats-tasks':
         trs = [('task_a', {'status': TaskStatus.DONE}), ('task_b', {'status': TaskStatus.DONE, 'result': 3})]
         if not good:
             trs.append(('task_c', {'status': TaskStatus.FAILED}))
-        return TestStatsTasks(name='stats-tasks', description='tasks', task_results=trs).evaluate()
+        return Built(lambda: TestStatsTasks(name='stats-tasks', description='tasks', task_results=trs), [trs], on_sections(trs))
     if kind in ('stats-tests', 'stats-bylabels'):
         ref2, close = _datasets(True)
         r1 = TestApproxEqual(ref2, close, name='r1', rtol=0.05, labels={'day': 'mon', 'meal': 'lunch'}).evaluate()
         r2 = TestStudent(ref2, close, name='r2', ndf=20, alpha=0.05, labels={'day': 'mon', 'meal': 'dinner'}).evaluate()
         r3 = TestApproxEqual(ref, other, name='r3', rtol=0.05, labels={'day': 'tue'}).evaluate()
         trs = [('task_a', {'status': TaskStatus.DONE, 'result': [r1, r2]}), ('task_b', {'status': TaskStatus.DONE, 'result': [r3]})]
+        if kind == 'stats-bylabels' or not good:
+            # a task that produced no result at all (its section has no 'result' key): counted as missing by the summary of
+            # the tests (hence only in its failing variant), not counted by the per-label summary
+            trs.append(('task_c', {'status': TaskStatus.FAILED}))
         if kind == 'stats-tests':
-            return TestStatsTests(name='stats-tests', description='tests', task_results=trs).evaluate()
-        return TestStatsTestsByLabels(name='stats-bylabels', description='labels', task_results=trs, by_labels=('day',)).evaluate()
+            return Built(lambda: TestStatsTests(name='stats-tests', description='tests', task_results=trs), [trs], on_sections(trs))
+        return Built(lambda: TestStatsTestsByLabels(name='stats-bylabels', description='labels', task_results=trs, by_labels=('day',)),
+                     [trs], on_sections(trs))
     if kind == 'failed':
-        return TestResultFailed(TestEqual(ref, other, name='failed', description='raises'), 'boom: division by zero')
+        return Built(lambda: TestEqual(ref, other, name='failed', description='raises'), [ref, other], on_datasets(ref, other),
+                     finish=lambda test: TestResultFailed(test, 'boom: division by zero'))
     if kind == 'external':
         from valjean.javert.test_external import TestExternal
         from valjean.javert.templates import TableTemplate, PlotTemplate, TextTemplate, CurveElements, SubPlotElements
@@ -135,8 +189,15 @@ def build(kind, good):
                               errors=np.array([0.1, 0.2, 0.1]))
         plot = PlotTemplate(subplots=[SubPlotElements(curves=[curve], axnames=['x', 'user quantity'])])
         text = TextTemplate('The user ran this comparison elsewhere.\n\n')
-        return TestExternal(text, table, plot, name='external', description='user-defined', success=bool(good)).evaluate()
+        return Built(lambda: TestExternal(text, table, plot, name='external', description='user-defined', success=bool(good)),
+                     [text, table, plot],
+                     lambda: [TestExternal(text, table, plot, name='sib-external', success=not good), TestExternal(plot, table, name='sib-fewer')])
     raise ValueError(kind)
+
+
+def build(kind, good):
+    """A freshly evaluated result of the given kind on inputs that pass (good) or fail."""
+    return build_test(kind, good).result()
 
 
 class CannotConstruct(Exception):
@@ -180,7 +241,9 @@ def derive(res, origin):
 
 
 def obtain(kind, good, origin='evaluate'):
-    return derive(build(kind, good), origin)
+    """(result, redundant, the Built it comes from)"""
+    built = build_test(kind, good)
+    return derive(built.result(), origin) + (built,)
 
 
 # ---------------------------------------------------------------------------------------------
@@ -194,6 +257,8 @@ def restrict(now, base):
     """`now` without the attributes that the object at the same place in `base` did not have: an attribute ADDED to an
     object after the baseline was taken (a lazy cache) is not a recorded statistic / an input (DESIGN 8.1); a recorded
     attribute that disappears or changes still shows."""
+    if now == base:
+        return now
     if isinstance(now, Attrs) and isinstance(base, Attrs):
         had = dict(base)
         return Attrs((k, restrict(v, had[k])) for k, v in now if k in had)
@@ -202,8 +267,31 @@ def restrict(now, base):
     return now
 
 
+_MEMO = [None]      # id -> (object, digest) while ONE snapshot is being taken: an object reachable twice is digested once
+
+
+class _OneSnapshot:
+    def __enter__(self):
+        _MEMO[0] = {}
+
+    def __exit__(self, *exc):
+        _MEMO[0] = None
+
+
 def _dig(obj, depth=0):
     """Structural digest (hashable, comparable) of anything reachable from a result."""
+    if isinstance(obj, (bool, int, str, bytes, type(None))):
+        return (type(obj).__name__, obj)
+    memo = _MEMO[0]
+    if memo is None:
+        return _dig1(obj, depth)
+    got = memo.get(id(obj))
+    if got is None:
+        got = memo[id(obj)] = (obj, _dig1(obj, depth))
+    return got[1]
+
+
+def _dig1(obj, depth):
     from valjean.eponine.dataset import Dataset
     from valjean.gavroche.test import Test, TestResult
     if depth > 12:
@@ -251,11 +339,13 @@ def _stats(res, depth=0):
     return Attrs(out)
 
 
-def structure(res):
+def structure(res, inputs=None):
     """Structural digest of the live object: (recorded statistics = every attribute but the test, inputs = the test with
-    its parameters and datasets + its fingerprint).  Reads attributes only; does not read the verdict."""
+    its parameters and datasets + its fingerprint + the objects the test was constructed from: key sets and contents of
+    dictionaries / environment sections, lists, dataset bytes).  Reads attributes only; does not read the verdict."""
     from valjean.fingerprint import fingerprint
-    return _stats(res), (fingerprint(res.test), _dig(res.test))
+    with _OneSnapshot():
+        return _stats(res), (fingerprint(res.test), _dig(res.test), _dig(inputs))
 
 
 def _pickled(res):
@@ -272,17 +362,27 @@ class Tracker:
     """Numbers the abstract states seen during one operation sequence; 0 = the state of the untouched result.
 
     The projection of a result is  verdict, stats = (digest of every recorded attribute, digest of what its pickle loads
-    back to), data = (digest of the test / datasets + fingerprint, the same of what the pickle loads back to).
-    Fast path: when the pickle of the result is byte-for-byte the pickle taken from the untouched result, the whole
-    projection is the untouched one; the structural digests are computed when the bytes differ (a changed byte is not
-    yet a changed statistic: dictionary order, an empty class added by a cache ...) and, whatever the bytes, at the
-    last event of a sequence (state a custom pickling could hide)."""
+    back to), data = (digest of the test / datasets + fingerprint + the objects the test was constructed from, the same
+    of what the pickle loads back to).
+    Baselines (number 0): of the statistics, the result as obtained; of the data, the inputs as they were BEFORE the test
+    was constructed and the test as it was BEFORE it was evaluated (Built.pre) -- an evaluation that edits what it was
+    given shows at the very first event.
+    Fast path: when the pickle of the result (and of the input objects) is byte-for-byte the pickle taken from the
+    untouched result, the whole projection is that of the untouched result; the structural digests are computed when the
+    bytes differ (a changed byte is not yet a changed statistic: dictionary order, an empty class added by a cache ...)
+    and, whatever the bytes, at the last event of a sequence (state a custom pickling could hide)."""
 
-    def __init__(self, res):
-        self.base = structure(res)            # before anything, the pickling below included, has looked at the result
+    def __init__(self, res, built=None):
+        self.inputs = built.inputs if built is not None else None
+        got = structure(res, self.inputs)     # before anything, the pickling below included, has looked at the result
+        pre = built.pre if built is not None else got[1]
+        self.base = (got[0], pre)
         self.bytes0 = _pickled(res)
+        self.ibytes0 = _pickled(self.inputs)
         self._loaded0 = None
-        self.seen = {'stats': [(self.base[0], SAME)], 'data': [(self.base[1], SAME)]}
+        self.seen = {'stats': [(self.base[0], SAME)], 'data': [(pre, SAME)]}
+        # the untouched result (fast path): its inputs may already differ from the baseline
+        self.first = (0, self._number('data', (restrict(got[1], pre), SAME)))
 
     def _number(self, what, value):
         lst = self.seen[what]
@@ -305,9 +405,9 @@ class Tracker:
         verdict = bool(obj) if read_verdict else None
         data = _pickled(obj)
         same_bytes = data is not None and data == self.bytes0
-        if same_bytes and not thorough:
-            return verdict, 0, 0
-        live = structure(obj)
+        if same_bytes and not thorough and _pickled(self.inputs) == self.ibytes0:
+            return (verdict,) + self.first
+        live = structure(obj, self.inputs)
         live = tuple(restrict(live[k], self.base[k]) for k in (0, 1))
         via = (SAME, SAME)
         if not same_bytes and data is not None and self.bytes0 is not None:
@@ -327,8 +427,9 @@ def real_keys(res, kind):
         return []
     from valjean.cosette.task import TaskStatus
     from valjean.gavroche.diagnostics.stats import TestOutcome
-    ok, ko = (TaskStatus.DONE, TaskStatus.FAILED) if kind == 'stats-tasks' else (TestOutcome.SUCCESS, TestOutcome.FAILURE)
-    return sorted({'OK' if s == ok else 'KO' if s == ko else 'OTHER' for s in res.classify.keys()})
+    # KO: the failing statuses present in the failing variant of the inputs (build_test)
+    ok, ko = (TaskStatus.DONE, (TaskStatus.FAILED,)) if kind == 'stats-tasks' else (TestOutcome.SUCCESS, (TestOutcome.FAILURE, TestOutcome.MISSING))
+    return sorted({'OK' if s == ok else 'KO' if s in ko else 'OTHER' for s in res.classify.keys()})
 
 
 # ---------------------------------------------------------------------------------------------
@@ -396,7 +497,31 @@ def _with_nested(res):
     return [res] + [v for _, v in sorted(vars(res).items()) if isinstance(v, TestResult)]
 
 
-def apply_op(res, kind, op, verb, origin='evaluate'):
+def use_siblings(built, turn=0):
+    """Other tests constructed over the SAME input objects (Built.siblings: the other classes of the family, other
+    options, the same class again) are evaluated, in an order that rotates with `turn`, and their results looked at
+    (verdict, oracles; one of them represented as a table).  Nothing of it may change what the result under observation
+    shows, its inputs, or what evaluating its test again gives.  A sibling that cannot be evaluated on these inputs
+    (a summary of tests over sections that do not hold test results ...) is skipped."""
+    from valjean.javert import representation as rp
+    from valjean.javert.verbosity import Verbosity
+    sibs = built.siblings()
+    turn %= len(sibs)
+    done = 0
+    for k, sib in enumerate(sibs[turn:] + sibs[:turn]):
+        try:
+            out = sib.evaluate()
+            bool(out)
+            read_members(out, RESULT_DENY, only=ORACLES)
+            if k == 0:
+                rp.TableRepresenter()(out, Verbosity((turn + 2) % 6))
+            done += 1
+        except Exception:   # pylint: disable=broad-except
+            continue
+    return done
+
+
+def apply_op(res, kind, op, verb, origin='evaluate', built=None, turn=0):
     """Apply one read-only operation -- the whole family of calls the name stands for; returns the duplicate produced
     (copy / pickle / reeval) or None."""
     from valjean.javert import representation as rp, table_repr, plot_repr
@@ -471,6 +596,10 @@ def apply_op(res, kind, op, verb, origin='evaluate'):
     elif op == 'pickle':
         pickle.loads(pickle.dumps(res, protocol=2))
         return pickle.loads(pickle.dumps(res))
+    elif op == 'sibling':
+        if built is None:
+            raise ValueError('the sibling operation needs the inputs the test was constructed from')
+        use_siblings(built, turn)
     elif op == 'reeval':
         if kind == 'failed':
             return copy.deepcopy(res)        # a failed evaluation has no evaluate() of its own to repeat
@@ -478,6 +607,9 @@ def apply_op(res, kind, op, verb, origin='evaluate'):
     else:
         raise ValueError('unknown operation %r' % (op,))
     return None
+
+
+_REDUNDANT = set()
 
 
 class Redundant(Exception):
@@ -488,10 +620,14 @@ def run_sequence(kind, good, ops, origin='evaluate', skip_redundant=False):
     """Obtain a fresh result and apply ops.  Returns the list of events
     dict(op, verb, verdict, stats, data, dupVerdict, dupStats, dupData, keys, exc) with digest NUMBERS
     (0 = value of the untouched result)."""
-    res, redundant = obtain(kind, good, origin)
-    if redundant and skip_redundant:
+    known = (kind, bool(good), origin, FLAVOUR[0])
+    if skip_redundant and known in _REDUNDANT:
         raise Redundant()
-    tracker = Tracker(res)
+    res, redundant, built = obtain(kind, good, origin)
+    if redundant and skip_redundant:
+        _REDUNDANT.add(known)      # a property of the result class and of the way of obtaining it, not of the sequence
+        raise Redundant()
+    tracker = Tracker(res, built)
     first = tracker.look(res, thorough=not ops)
     events = [dict(op='evaluate', verb=NOVERB, verdict=first[0], stats=first[1], data=first[2],
                    dupVerdict=first[0], dupStats=0, dupData=0, keys=real_keys(res, kind), exc='')]
@@ -499,7 +635,7 @@ def run_sequence(kind, good, ops, origin='evaluate', skip_redundant=False):
     for n, op in enumerate(ops):
         exc = ''
         try:
-            made = apply_op(res, kind, op['op'], op['verb'], origin)
+            made = apply_op(res, kind, op['op'], op['verb'], origin, built, n)
             if made is not None:
                 dup = tracker.look(made)
         except Exception as ex:   # pylint: disable=broad-except
@@ -525,16 +661,20 @@ def judge(kind, good, events, origin='evaluate'):
         elif ev['stats'] != 0:
             what = ('statistics-changed', 'the recorded statistics (attributes of the result / what its pickle loads back to) differ from '
                     'those right after %s' % how)
+        elif ev['data'] != 0 and n == 0:
+            what = ('inputs-changed-by-evaluation', 'the objects the test was constructed from (datasets, dictionaries / environment sections, '
+                    'lists; key sets included) or its parameters differ from what they were before the test was constructed and evaluated')
         elif ev['data'] != 0:
-            what = ('inputs-changed', 'the test parameters / datasets differ from those right after %s' % how)
+            what = ('inputs-changed', 'the test parameters / the objects it was constructed from (datasets, dictionaries / environment '
+                    'sections, lists) differ from what they were before %s' % how)
         elif (ev['dupVerdict'], ev['dupStats'], ev['dupData']) != (good, 0, 0):
             what = ({'copy': 'copy-differs', 'pickle': 'pickle-differs', 'reeval': 'not-repeatable'}.get(ev['op'], 'duplicate-differs'),
                     'the %s of the result has verdict %r / statistics #%d / inputs #%d' % (ev['op'], ev['dupVerdict'], ev['dupStats'], ev['dupData']))
         if what:
             opname = ev['op'] + ('' if ev['verb'] == NOVERB else '(verbosity %d)' % ev['verb'])
-            key = 'C13/%s/%s%s' % (what[0], kind, _suffix(origin))
+            key = 'C13/%s/%s%s%s' % (what[0], kind, _suffix(origin), '/sibling-test' if ev['op'] == 'sibling' else '')
             if n == 0:
-                return n, key, 'on the first reading of the verdict right after %s: %s' % (how, what[1])
+                return n, key, 'right after %s (verdict read once): %s' % (how, what[1])
             return n, key, 'result obtained by %s, after %s (operation %d of %s): %s' % (
                 how[4:], opname, n, [e['op'] for e in events[1:]], what[1])
     return None
@@ -559,6 +699,7 @@ def validate_batch(traces, wd, name='trace'):
 
 
 TWIN = 10 ** 6
+WITNESSES = ('W_ReprThenBool', 'W_AllVerbs', 'W_OtherOrigin', 'W_SiblingThenReeval')
 
 
 def corrupted_twins(batch):
@@ -722,20 +863,22 @@ def random_ops(rng, n, draw=0.04):
 
 
 def run_c13(ctx):
-    ctx.rule('spec->code: every maximal operation sequence of the states dumped by TLC for Observe.tla (all sequences over 8 '
-             'accessor / duplication operations and 4 representations x verbosities, up to the length bound; the matplotlib drawing as a '
+    ctx.rule('spec->code: every maximal operation sequence of the states dumped by TLC for Observe.tla (all sequences over 9 '
+             'accessor / duplication / sibling-test operations and 4 representations x verbosities, up to the length bound; the matplotlib drawing as a '
              'fifth representation in a plan of its own) and the longer ones TLC simulates are executed on a fresh real result of each of the '
              '12 kinds, on passing and on failing inputs, obtained in each of the ways TLC enumerates (evaluate(), direct construction with the '
              'optional constructor arguments left to their defaults, unpickled; a directly constructed result that is the very object graph '
              'evaluate() returned is not executed a second time), with a deep snapshot after every operation compared with the (constant) '
-             'abstract state of the TLC states.  An operation name is bound to the whole family of public read-only calls of that sort '
+             'abstract state of the TLC states; the snapshot of the inputs (every object handed to the constructor: datasets, dictionaries / '
+             'environment sections incl. key sets, result lists, templates, inner test) has its baseline taken before construction and evaluation; '
+             'the operation sibling evaluates and reads 3-7 other tests built over the same input objects, in rotating order.  An operation name is bound to the whole family of public read-only calls of that sort '
              '(documented accessors by name, the other public properties / argument-less methods of the result and of its test by '
              'introspection, all representer classes).  design level: ObserveImpl.tla (key set of the defaultdict behind classify) is '
              'checked to refine Observe; the as-found inserting variant is refuted by TLC and its counterexample replayed.  code->spec: '
              'seeded random sequences of 4-12 operations recorded and walked by TLC through ObserveTrace.tla.  distinct_nontrivial counts '
              'distinct (kind, origin, inputs, sequence) executions containing at least one representation followed by another operation.')
     ctx.assume('snapshot = verdict, every attribute the result stores (classifications as names of the non-empty classes), what its pickle '
-               'loads back to, test parameters, dataset bytes and fingerprint; attributes ADDED to the result / its test by lazy caches after '
+               'loads back to, test parameters, dataset bytes, fingerprint and the objects handed to the constructor; attributes ADDED to the result / its test by lazy caches after '
                'the result was obtained are not part of it (DESIGN 8.1), a recorded attribute that is overwritten is; 1-d datasets of 4 bins (2-d with an undefined cell in part of '
                'the random sequences)')
     ctx.assume('an operation that raises is not a change of the result: it is reported as drift, not as a violation')
@@ -771,7 +914,7 @@ def run_c13(ctx):
         cfg = tlc.write_cfg(os.path.join(wd, name + '.cfg'), constants=_consts(verbs, maxlen, None, origins, verbops),
                             invariants=['Deterministic', 'VerdictIsTruth'], properties=['ReadOnly'], deadlock=False)
         later.start(name, SPEC, cfg, dump=os.path.join(wd, name), timeout=1500, workers=ctx.pick(4, None))
-    for wit in ('W_ReprThenBool', 'W_AllVerbs', 'W_OtherOrigin'):
+    for wit in WITNESSES:
         cfg = tlc.write_cfg(os.path.join(wd, wit + '.cfg'), constants=_consts([0, 2, 4], 2, ['equal', 'stats-tasks']), invariants=[wit], deadlock=False)
         later.start(wit, SPEC, cfg, coverage=False)
     cfg = tlc.write_cfg(os.path.join(wd, 'sim.cfg'), constants=_consts(range(6), depth, None, ORIGINS, VERB_OPS + DRAW_OPS),
@@ -841,7 +984,7 @@ def _run_c13(ctx, wd, later, plans, simprefix, depth, nsim):
             if crc % 50 == 0:
                 traces.append((st['kind'], bool(st['good']), ops, events, origin))
         os.remove(dump + '.dump')
-    for wit in ('W_ReprThenBool', 'W_AllVerbs', 'W_OtherOrigin'):
+    for wit in WITNESSES:
         if later.get(wit).violation != ('invariant', wit):
             raise tlc.MachineryError('witness %s not reachable in Observe.tla' % wit)
 
